@@ -21,7 +21,7 @@ def run(ctx, which):
     ctx.replay(behs, common.wrap(sdo_common.make_preamble(objs)), sdo_common.observe, ordered=True, label="scen_n1")
     # C02 clause "a transfer on one server is unaffected by traffic on another": the same dialogues, two at a
     # time on different objects, interleaved frame by frame on the two servers of a CO_SSDO_N = 2 build
-    pairs = interleave(behs, ctx.seed, 60 if q else 600)
+    pairs = interleave(behs, ctx.seed, 150 if q else 1500)
     ctx.assumptions.append("independence of servers: pairs of dialogues on different objects are interleaved frame by frame on server 0 (600h+id) and server 1 (610h/590h) of a CO_SSDO_N = 2 build; every prediction must still hold")
     ctx.replay(pairs, common.wrap(sdo_common.make_preamble(objs, nsrv=2)), sdo_common.observe, variant="n2", defines=("CO_SSDO_N=2",), ordered=True, label="scen_two_servers")
 
@@ -31,6 +31,9 @@ def interleave(behs, seed, n):
     from vlib import Beh
     rnd = random.Random(seed + 3)
     small = [b for b in behs if len(b.steps) <= 80]
+    # a long partner (a block of up to 127 segments in flight on one server while the other one is busy): the two
+    # transfer buffers are slices of one array, so an overlap only shows once a transfer is long enough
+    long_ = [b for b in behs if 80 < len(b.steps) <= 420]
     out = []
 
     def touched(b):
@@ -61,6 +64,10 @@ def interleave(behs, seed, n):
     while len(out) < n and tries < 20 * n and len(small) > 1:
         tries += 1
         a, b = rnd.sample(small, 2)
+        if long_ and tries % 3 == 0:
+            a = rnd.choice(long_)
+            if rnd.random() < 0.5:
+                a, b = b, a
         if touched(a) & touched(b):
             continue
         sa, sb = list(a.steps), [on_server1(x) for x in b.steps]
